@@ -918,6 +918,10 @@ func TestVerifNhsim(t *testing.T) {
 		rec.keep = func(ev string) bool {
 			return ev == "Init" || ev == "Req" || ev == "Served" || ev == "Phase" || ev == "Fault" || ev == "Crash" || ev == "Panic"
 		}
+	case "catchup":
+		rec.keep = func(ev string) bool {
+			return ev == "Init" || ev == "CatchUp" || ev == "Fault" || ev == "Panic"
+		}
 	case "import":
 		rec.keep = func(ev string) bool {
 			return ev != "Send" && ev != "Save" && ev != "Enter" && ev != "Exit" && ev != "Inv" && ev != "Res" && ev != "Leader" && ev != "Boot" && ev != "Apply"
@@ -971,6 +975,10 @@ func TestVerifNhsim(t *testing.T) {
 		}
 		if mode == "quiesce" {
 			nhScenarioQuiesce(rec, tid, s, sms[(tid/2)%3], p.store, nhEnvInt("VERIF_ROUNDS", 4))
+			continue
+		}
+		if mode == "catchup" {
+			nhScenarioCatchUp(rec, tid, s, sms[2-tid%3], p.store)
 			continue
 		}
 		if mode == "import" {
